@@ -310,29 +310,53 @@ Proof.
 Qed.
 
 (* invariant of a Delegation under any sequence of set_details attempts: a reference never carries
-   details, details are always of the delegation's type *)
+   details, details are always of the delegation's type, and the pool name is the one the constructor leaves
+   (none on a single-pool delegation, never the reserved name on a definition) *)
 Definition d_inv (d : deleg) : Prop :=
-  (d_fmt d = FRef -> d_details d = None) /\ (forall x, d_details d = Some x -> det_kind x = d_type d).
+  (d_fmt d = FRef -> d_details d = None) /\ (forall x, d_details d = Some x -> det_kind x = d_type d) /\
+  ctor_shape d = true.
 
 Definition set_try (d : deleg) (x : det) : deleg :=
   match set_details d x with Ok d' => d' | Err _ => d end.
 
+Lemma new_deleg_inv ty id fmt pool d0 : new_deleg ty id fmt pool = Ok d0 ->
+  d_inv d0 /\ d_type d0 = ty /\ d_id d0 = id /\ d_fmt d0 = fmt /\ d_details d0 = None.
+Proof.
+  unfold new_deleg. destruct fmt, pool as [p|]; try discriminate.
+  - destruct (str_eqb p single_pool_name) eqn:E; [discriminate|]. intro H. injection H as <-.
+    unfold d_inv, ctor_shape, str_neqb. cbn. rewrite E. repeat split; congruence.
+  - intro H. injection H as <-. unfold d_inv, ctor_shape. cbn. repeat split; congruence.
+  - intro H. injection H as <-. unfold d_inv, ctor_shape. cbn. repeat split; congruence.
+  - intro H. injection H as <-. unfold d_inv, ctor_shape. cbn. repeat split; congruence.
+Qed.
+
+Lemma set_try_inv d x : d_inv d -> d_inv (set_try d x).
+Proof.
+  intros I. unfold set_try. destruct (set_details d x) as [d'|e] eqn:E; [|exact I].
+  destruct I as (I1 & I2 & I3).
+  unfold set_details in E. destruct (d_fmt d) eqn:F; try discriminate;
+    (destruct (dtype_eqb (det_kind x) (d_type d)) eqn:K; [|discriminate]; injection E as <-;
+     apply dtype_eqb_eq in K; unfold d_inv, ctor_shape in *; cbn [d_fmt d_details d_type d_pool]; rewrite F in *;
+     repeat split; [congruence|intros y Hy; congruence|exact I3]).
+Qed.
+
 Lemma delegation_invariant ty id fmt pool d0 xs : new_deleg ty id fmt pool = Ok d0 ->
   d_inv (fold_left set_try xs d0).
 Proof.
-  intro N.
-  assert (I0 : d_inv d0).
-  { unfold new_deleg in N. destruct fmt, pool; try discriminate; injection N as <-; split; simpl; congruence. }
-  clear N. revert d0 I0. induction xs as [|x r IH]; intros d I; simpl; [exact I|].
-  apply IH. unfold set_try. destruct (set_details d x) as [d'|e] eqn:E; [|exact I].
-  unfold set_details in E. destruct (d_fmt d) eqn:F; try discriminate;
-    (destruct (dtype_eqb (det_kind x) (d_type d)) eqn:K; [|discriminate]; injection E as <-;
-     apply dtype_eqb_eq in K; split; cbn [d_fmt d_details d_type]; [congruence|intros y Hy; congruence]).
+  intro N. apply new_deleg_inv in N as [I0 _].
+  revert d0 I0. induction xs as [|x r IH]; intros d I; simpl; [exact I|].
+  apply IH. apply set_try_inv. exact I.
 Qed.
 
 (* ---------------------------------------------------------------------------------------------- *)
 (* delegations: encode, decode                                                                      *)
 (* ---------------------------------------------------------------------------------------------- *)
+Lemma other_none_with_details ty p dd :
+  (match ty with TCap => j_labs (with_details ty p dd) | TLab => j_caps (with_details ty p dd) end) = None /\
+  (match ty with TCap => j_caps (with_details ty p dd) | TLab => j_labs (with_details ty p dd) end) = Some dd /\
+  j_pool_id (with_details ty p dd) = Some p.
+Proof. destruct ty; repeat split. Qed.
+
 Lemma entry_roundtrip ty d : deleg_ok lc ty d = true ->
   exists j, entry_to_json ty d = Ok j /\ entry_of_json lc ty (d_id d) j = Ok d.
 Proof.
@@ -347,8 +371,9 @@ Proof.
     pose proof (details_roundtrip x dd OK ED) as RT. rewrite K in RT.
     exists (with_details ty p dd). unfold entry_to_json, details_as_dict. cbn [d_fmt d_pool d_details]. rewrite ED.
     split; [reflexivity|].
-    unfold entry_of_json. destruct ty; cbn [with_details j_pool_id j_caps j_labs]; rewrite NP, RT;
-      cbn [bind new_deleg]; unfold set_details; cbn [d_fmt d_type]; rewrite K; reflexivity.
+    destruct (other_none_with_details ty p dd) as (A & B & C).
+    unfold entry_of_json. rewrite C, A, B, NP, RT. cbn [bind new_deleg]. rewrite NP. cbn [bind].
+    unfold set_details; cbn [d_fmt d_type]; rewrite K, dtype_eqb_refl; reflexivity.
   - (* reference *)
     exists (mkJ None (Some p) None None). split; reflexivity.
   - (* single *)
@@ -359,8 +384,9 @@ Proof.
     pose proof (details_roundtrip x dd OK ED) as RT. rewrite K in RT.
     exists (with_details ty single_pool_name dd). unfold entry_to_json, details_as_dict. cbn [d_fmt d_pool d_details]. rewrite ED.
     split; [reflexivity|].
-    unfold entry_of_json. destruct ty; cbn [with_details j_pool_id j_caps j_labs]; rewrite str_eqb_refl, RT;
-      cbn [bind new_deleg]; unfold set_details; cbn [d_fmt d_type]; rewrite K; reflexivity.
+    destruct (other_none_with_details ty single_pool_name dd) as (A & B & C).
+    unfold entry_of_json. rewrite C, A, B, str_eqb_refl, RT. cbn [bind new_deleg].
+    unfold set_details; cbn [d_fmt d_type]; rewrite K, dtype_eqb_refl; reflexivity.
 Qed.
 
 Lemma items_roundtrip ty items : forall acc,
@@ -403,16 +429,43 @@ Lemma entry_no_pool_key ty id j : j_pool_id j = None -> j_pool j = None ->
   entry_of_json lc ty id j = Err EDelegation.
 Proof. intros A B. unfold entry_of_json. rewrite A, B. reflexivity. Qed.
 
+(* details on a reference: rejected, whatever they are *)
+Lemma entry_details_on_ref ty id j : j_pool_id j = None -> (j_caps j <> None \/ j_labs j <> None) ->
+  entry_of_json lc ty id j = Err EDelegation.
+Proof.
+  intros A B. unfold entry_of_json. rewrite A. destruct (j_pool j); [|reflexivity].
+  destruct (j_caps j), (j_labs j); try reflexivity. destruct B as [B|B]; contradiction.
+Qed.
+
+(* content of the other type next to a pool_id: rejected, whatever else the entry holds *)
+Lemma entry_mixed ty id j p : j_pool_id j = Some p ->
+  (match ty with TCap => j_labs j | TLab => j_caps j end) <> None ->
+  entry_of_json lc ty id j = Err EDelegation.
+Proof.
+  intros A B. unfold entry_of_json. rewrite A.
+  destruct (match ty with TCap => j_labs j | TLab => j_caps j end); [reflexivity|contradiction].
+Qed.
+
 Lemma entry_missing_details ty id j p : j_pool_id j = Some p ->
+  (match ty with TCap => j_labs j | TLab => j_caps j end) = None ->
   (match ty with TCap => j_caps j | TLab => j_labs j end) = None ->
   entry_of_json lc ty id j = Err EKey.
-Proof. intros A B. unfold entry_of_json. rewrite A, B. reflexivity. Qed.
+Proof. intros A O B. unfold entry_of_json. rewrite A, O, B. reflexivity. Qed.
 
 Lemma entry_bad_details ty id j p dd e : j_pool_id j = Some p ->
+  (match ty with TCap => j_labs j | TLab => j_caps j end) = None ->
   (match ty with TCap => j_caps j | TLab => j_labs j end) = Some dd ->
   first_error lc ty dd = Some e ->
   entry_of_json lc ty id j = Err e.
-Proof. intros A B C. unfold entry_of_json, obj_of_dict. rewrite A, B, C. reflexivity. Qed.
+Proof. intros A O B C. unfold entry_of_json, obj_of_dict. rewrite A, O, B, C. reflexivity. Qed.
+
+(* an entry the decoder accepts has one of the three shapes of the format *)
+Lemma entry_accepted_clean ty id j d : entry_of_json lc ty id j = Ok d -> entry_clean ty j = true.
+Proof.
+  unfold entry_of_json, entry_clean. destruct (j_pool_id j) as [pid|].
+  - destruct ty; destruct (j_caps j), (j_labs j); try discriminate; reflexivity.
+  - destruct (j_pool j); [|discriminate]. destruct (j_caps j), (j_labs j); try discriminate. reflexivity.
+Qed.
 
 Lemma from_items_entries ty doc : forall ds ds', from_json_items lc ty doc ds = Ok ds' ->
   forall k j, In (k, j) doc -> exists d, entry_of_json lc ty k j = Ok d.
@@ -435,14 +488,18 @@ Lemma entry_of_json_inv ty id j d : entry_of_json lc ty id j = Ok d ->
   d_type d = ty /\ d_id d = id /\ d_inv d.
 Proof.
   unfold entry_of_json. destruct (j_pool_id j) as [pid|].
-  - destruct (match ty with TCap => j_caps j | TLab => j_labs j end) as [dd|]; [|discriminate].
+  - destruct (match ty with TCap => j_labs j | TLab => j_caps j end); [discriminate|].
+    destruct (match ty with TCap => j_caps j | TLab => j_labs j end) as [dd|]; [|discriminate].
     destruct (obj_of_dict lc ty dd) as [x|e] eqn:O; [|discriminate]. cbn [bind].
-    apply obj_of_dict_kind in O.
-    destruct (str_eqb pid single_pool_name); cbn [new_deleg bind]; unfold set_details; cbn [d_fmt d_type];
-      rewrite O, dtype_eqb_refl; intro H; injection H as <-; unfold d_inv; cbn; repeat split;
-      first [congruence | intros y Hy; congruence | intro; discriminate].
-  - destruct (j_pool j) as [p|]; [|discriminate]. cbn [new_deleg]. intro H. injection H as <-.
-    unfold d_inv; cbn. repeat split; first [congruence | intros y Hy; congruence].
+    destruct (new_deleg ty id (if str_eqb pid single_pool_name then FSingle else FDef)
+                        (if str_eqb pid single_pool_name then None else Some pid)) as [d0|e] eqn:N; [|discriminate].
+    cbn [bind]. intro SD.
+    apply new_deleg_inv in N as (I0 & T0 & ID0 & _ & _).
+    pose proof (set_try_inv d0 x I0) as I1. unfold set_try in I1. rewrite SD in I1.
+    unfold set_details in SD. destruct (d_fmt d0); try discriminate;
+      (destruct (dtype_eqb (det_kind x) (d_type d0)); [|discriminate]; injection SD as <-; cbn; tauto).
+  - destruct (j_pool j) as [p|]; [|discriminate]. destruct (j_caps j), (j_labs j); try discriminate.
+    intro N. apply new_deleg_inv in N as (I0 & T0 & ID0 & _ & _). tauto.
 Qed.
 
 Lemma from_items_inv ty doc : forall ds ds', from_json_items lc ty doc ds = Ok ds' ->
@@ -476,50 +533,103 @@ Proof.
   - constructor.
 Qed.
 
+(* every entry of an accepted document has one of the three shapes: mixed content and details on a reference
+   are ALWAYS rejected *)
+Lemma from_json_clean ty doc ds : from_json lc ty doc = Ok ds ->
+  forall k j, In (k, j) doc -> entry_clean ty j = true.
+Proof.
+  intros H k j HI. destruct (from_json_entries ty doc ds H k j HI) as [d E].
+  eapply entry_accepted_clean. exact E.
+Qed.
+
+Lemma from_json_rejects_unclean ty doc : (exists k j, In (k, j) doc /\ entry_clean ty j = false) ->
+  exists e, from_json lc ty doc = Err e.
+Proof.
+  intros (k & j & HI & HC). destruct (from_json lc ty doc) as [ds|e] eqn:E; [|exists e; reflexivity].
+  rewrite (from_json_clean ty doc ds E k j HI) in HC. discriminate.
+Qed.
+
+(* the constructor only builds acceptable objects *)
+Lemma first_error_In ty d : first_error lc ty d = None -> forall kv, In kv d -> check_item lc ty kv = None.
+Proof.
+  induction d as [|a r IH]; intros H kv HI; [contradiction|]. cbn [first_error] in H.
+  destruct (check_item lc ty a) eqn:C; [discriminate|]. destruct HI as [<-|HI]; [exact C|apply IH; assumption].
+Qed.
+
+Lemma lookup_In {A} k (l : list (str * A)) v : lookup k l = Some v -> In (k, v) l.
+Proof.
+  induction l as [|[k' v'] r IH]; simpl; [discriminate|].
+  destruct (str_eqb k' k) eqn:E.
+  - apply str_eqb_eq in E. subst. intro H. injection H as <-. left. reflexivity.
+  - intro H. right. apply IH. exact H.
+Qed.
+
+Lemma vals_ok_map ty d fs : first_error lc ty d = None ->
+  vals_ok lc ty fs (map (fun f => match lookup f d with Some v => Some v | None => default_of ty end) fs) = true.
+Proof.
+  intro FE. induction fs as [|f r IH]; [reflexivity|]. cbn [map vals_ok]. rewrite IH, andb_true_r.
+  destruct (lookup f d) as [v|] eqn:L.
+  - apply lookup_In in L. pose proof (first_error_In ty d FE _ L) as C. unfold check_item in C. cbn [fst snd] in C.
+    destruct ty; cbn [val_ok].
+    + destruct v as [z| |]; try discriminate. destruct (z <? 0)%Z eqn:Hz; [discriminate|].
+      apply Z.leb_le. apply Z.ltb_ge in Hz. exact Hz.
+    + destruct v as [z| |]; try discriminate;
+        (destruct (is_field TLab f); [rewrite C; reflexivity|discriminate]).
+  - destruct ty; reflexivity.
+Qed.
+
+Lemma constructor_builds_ok ty dd x : obj_of_dict lc ty dd = Ok x -> det_ok lc x = true.
+Proof.
+  unfold obj_of_dict. destruct (first_error lc ty dd) eqn:FE; [discriminate|]. intro H. injection H as <-.
+  unfold det_ok. cbn [det_kind det_vals]. apply vals_ok_map. exact FE.
+Qed.
+
+(* full strength: whatever the API built (invariants d_inv / ds_inv, proved above for every call sequence),
+   with details objects the constructor built: if to_json encodes it, from_json gives it back *)
+Lemma encoded_deleg_ok ty d j : d_type d = ty -> d_inv d ->
+  (forall x, d_details d = Some x -> det_ok lc x = true) ->
+  entry_to_json ty d = Ok j -> deleg_ok lc ty d = true.
+Proof.
+  intros T (I1 & I2 & I3) DO E. unfold deleg_ok. rewrite T, dtype_eqb_refl. cbn [andb].
+  unfold ctor_shape in I3. unfold entry_to_json, details_as_dict in E.
+  destruct (d_fmt d) eqn:F, (d_pool d) as [p|] eqn:PL; try discriminate.
+  - destruct (d_details d) as [x|] eqn:D; [|discriminate].
+    destruct (det_to_dict x) eqn:DD; [|discriminate].
+    rewrite I3, (I2 x eq_refl), T, dtype_eqb_refl, (DO x eq_refl). unfold det_nonempty. rewrite DD. reflexivity.
+  - rewrite (I1 eq_refl). reflexivity.
+  - destruct (d_details d) as [x|] eqn:D; [|discriminate].
+    destruct (det_to_dict x) eqn:DD; [|discriminate].
+    rewrite (I2 x eq_refl), T, dtype_eqb_refl, (DO x eq_refl). unfold det_nonempty. rewrite DD. reflexivity.
+Qed.
+
+Lemma to_json_items_inv ty items doc : to_json_items ty items = Ok doc ->
+  forall d, In d items -> exists j, entry_to_json ty d = Ok j.
+Proof.
+  revert doc. induction items as [|a r IH]; intros doc H d HI; [contradiction|]. cbn [to_json_items] in H.
+  destruct (entry_to_json ty a) as [j|] eqn:E; [|discriminate]. cbn [bind] in H.
+  destruct (to_json_items ty r) as [doc'|] eqn:R; [|discriminate].
+  destruct HI as [<-|HI]; [exists j; exact E|eapply IH; [reflexivity|exact HI]].
+Qed.
+
+Lemma api_roundtrip ds doc : ds_inv ds -> Forall d_inv (ds_items ds) ->
+  Forall (fun d => forall x, d_details d = Some x -> det_ok lc x = true) (ds_items ds) ->
+  to_json ds = Ok doc ->
+  map fst doc = map d_id (ds_items ds) /\ from_json lc (ds_type ds) doc = Ok ds.
+Proof.
+  intros [ND TY] DI DO TJ.
+  assert (W : ds_wf lc ds = true).
+  { unfold ds_wf. apply andb_true_iff. split; [|apply str_nodup_NoDup; exact ND].
+    apply forallb_forall. intros d Hd. unfold to_json in TJ.
+    destruct (to_json_items_inv _ _ _ TJ d Hd) as [j E].
+    rewrite Forall_forall in TY, DI, DO.
+    eapply encoded_deleg_ok; [apply TY; exact Hd|apply DI; exact Hd|apply DO; exact Hd|exact E]. }
+  destruct (delegations_roundtrip ds W) as (doc' & TJ' & KS & FJ). rewrite TJ in TJ'. injection TJ' as <-.
+  split; assumption.
+Qed.
+
 End WithValidators.
 
 (* ---------------------------------------------------------------------------------------------- *)
-(* refutations (witnesses replayed on the implementation by harness/c12.py)                         *)
+(* the validator used by the non-vacuity Examples: accepts everything                              *)
 (* ---------------------------------------------------------------------------------------------- *)
 Definition accept_all : str -> dval -> option exn := fun _ _ => None.
-Definition cap1 : det := mkDet TCap (Some (DInt 1) :: map (fun _ => Some (DInt 0)) (tl deleg_cap_fields)).
-
-(* built through the API: Delegation(CAPACITY, "d1", PoolDefinition, "_"); set_details(Capacities(cpu=1));
-   add_delegations *)
-Definition api_build (fmt : dformat) (pool : option str) : res delegations :=
-  bind (new_deleg TCap (S"d1") fmt pool) (fun d0 =>
-  bind (obj_of_dict accept_all TCap [(S"cpu", DInt 1)]) (fun x =>
-  bind (set_details d0 x) (fun d => add_delegation (mkDs TCap []) d))).
-
-Lemma roundtrip_reserved_pool_name_refuted :
-  exists ds doc ds', api_build FDef (Some single_pool_name) = Ok ds /\ to_json ds = Ok doc /\
-                     from_json accept_all TCap doc = Ok ds' /\ ds' <> ds /\
-                     map d_fmt (ds_items ds) = [FDef] /\ map d_fmt (ds_items ds') = [FSingle].
-Proof.
-  eexists. eexists. eexists.
-  split; [vm_compute; reflexivity|]. split; [vm_compute; reflexivity|]. split; [vm_compute; reflexivity|].
-  split; [intro H; discriminate H|]. split; reflexivity.
-Qed.
-
-Lemma roundtrip_single_pool_name_refuted :
-  exists ds doc ds', api_build FSingle (Some (S"p1")) = Ok ds /\ to_json ds = Ok doc /\
-                     from_json accept_all TCap doc = Ok ds' /\ ds' <> ds /\
-                     map d_pool (ds_items ds) = [Some (S"p1")] /\ map d_pool (ds_items ds') = [None].
-Proof.
-  eexists. eexists. eexists.
-  split; [vm_compute; reflexivity|]. split; [vm_compute; reflexivity|]. split; [vm_compute; reflexivity|].
-  split; [intro H; discriminate H|]. split; reflexivity.
-Qed.
-
-(* from_json does NOT reject details on a reference / content of both kinds: it drops them silently *)
-Lemma from_json_rejects_details_on_ref_refuted :
-  exists doc ds, doc = [(S"d1", mkJ None (Some (S"p1")) (Some [(S"cpu", DInt 1)]) None)] /\
-                 from_json accept_all TCap doc = Ok ds /\
-                 map d_fmt (ds_items ds) = [FRef] /\ map d_details (ds_items ds) = [None].
-Proof. eexists. eexists. split; [reflexivity|]. split; [vm_compute; reflexivity|]. split; reflexivity. Qed.
-
-Lemma from_json_rejects_mixed_refuted :
-  exists doc ds, doc = [(S"d1", mkJ (Some (S"p1")) None (Some [(S"cpu", DInt 1)]) (Some [(S"vlan", DStr (S"3"))]))] /\
-                 from_json accept_all TCap doc = Ok ds /\
-                 map d_fmt (ds_items ds) = [FDef] /\ map d_details (ds_items ds) = [Some cap1].
-Proof. eexists. eexists. split; [reflexivity|]. split; [vm_compute; reflexivity|]. split; reflexivity. Qed.
